@@ -104,8 +104,6 @@ Record wf_state (w : wstate E) : Prop := mk_wf_state {
   (* every non-virtual volume comes from a cell whose composition is written *)
   ws_cells : forall k v, In (k, v) (w_vols w) -> v_fictive v = false ->
              exists c, lookup (vol_cell_id k v) (w_cells w) = Some c /\ cell_named w c;
-  ws_norm : forall cid c, In (cid, c) (w_cells w) -> norm_fixed c;
-  (* flagged surfaces are used by a surviving volume *)
-  ws_bcs : forall k b, In (k, b) (w_bcs w) -> exists kv v, In (kv, v) (w_vols w) /\ In k (surface_ids v) }.
+  ws_norm : forall cid c, In (cid, c) (w_cells w) -> norm_fixed c }.
 
 End State.
